@@ -11,18 +11,22 @@ SPEC = dict(
                 "operation and select of both packages; after every event (paced stratum), burst (burst stratum, optionally "
                 "with the worker held so that the queue overflows) or identify-versus-close race issued from two tasks (race "
                 "stratum) Addrs(min) and AddrsFor(local) are compared with a reference count recomputed from the history of "
-                "currently open connections. Sampling, not proof."),
+                "currently open connections. A fourth, system stratum (a quarter of the runs) has no stubs: a real NATed host "
+                "(simhost: swarm, TCP + QUIC (+ WebTransport), identify, basic host + its address manager + the Manager) and 3-10 "
+                "real observer hosts on the simulated wire; the oracle is on what the HOST advertises (Addrs, AllAddrs, the "
+                "identify message a probe node receives) against a reference computed from both swarms and the NAT table. "
+                "Sampling, not proof."),
     level_note=("trusted: testing/synctest quiescence detection, go-multiaddr parsing/printing, the reference model in the "
                 "harness (written from the property statement; readings taken where the statement is silent are listed at "
                 "the top of harness/c17/sim_test.go), the overlay rewrite (validated by the packages' own tests through "
                 "./check overlaytest C17). Equality is asserted at quiescent instants of the paced stratum only; in the "
                 "burst and race strata only the subset relation against an upper-bound model is asserted because the "
                 "worker queue may drop observations."),
-    technique=("deterministic simulation: seeded lock/channel-level scheduler over instrumented observedaddrs + eventbus, "
-               "stub network/connections, reference-count oracle"),
+    technique=("deterministic simulation: seeded lock/channel-level scheduler over the instrumented stack; Manager-level strata "
+               "with stub network/connections, system stratum with real hosts behind a simulated source NAT; reference-count oracle"),
     design_ref="DESIGN.md section 6 (C17)",
     quick_s=30, thorough_s=300,
-    rule=("one run = one tape: stratum (paced | burst | race), ActivationThresh in {4,2,3,1}, 1-11 listen addresses drawn from "
+    rule=("one run = one tape: stratum (paced | burst | race | system), for the first three: ActivationThresh in {4,2,3,1}, 1-11 listen addresses drawn from "
           "TCP/WS/QUIC/WebTransport on IPv4 and IPv6 (QUIC+WebTransport and TCP+WS sharing a thin waist, unspecified "
           "listeners with their interface resolution), then 1-70 operations: a connection arrives at a listen address / "
           "another port / another IP or is dialled (ephemeral port or listen socket) from a population of 6 IPv4 addresses "
@@ -35,19 +39,32 @@ SPEC = dict(
           "acquisition, channel operation, select and (burst/race) stub callback of the Manager. Epilogue: every connection closes and "
           "nothing may remain reported. non-trivial = some address reached the activation threshold and at least one "
           "counted report was withdrawn (close or replacement); distinct = distinct (operation sequence, every "
-          "Addrs/AddrsFor answer) in the paced stratum, (operation sequence, model counts) in the burst and race strata"),
+          "Addrs/AddrsFor answer) in the paced stratum, (operation sequence, model counts) in the burst and race strata. System stratum: ActivationThresh in {4,2,3}, IPv4 or IPv6, WebTransport "
+          "or not, host H on a private address behind a NAT with one public IP, 3-10 observers (several on one IPv4 address "
+          "with different ports / several in one IPv6 /56 in different /64s), 0-2 LAN nodes that see H's private address, a "
+          "probe node; 3-16 operations (H dials over QUIC | WebTransport | TCP, observer dials H's mapped QUIC endpoint, both "
+          "at once, LAN node dials the private TCP address, H closes a peer or one connection, observer closes, observer node "
+          "shuts down, probe dial), each followed by IdentifyWait on every open connection + 11 s virtual (two recompute "
+          "periods of the host's address manager + slack) + WaitIdle and the check; non-trivial = a public address was "
+          "advertised at some check; distinct = (operations, advertised public addresses at every check)"),
     probes=["address-activated", "address-deactivated", "more-than-3-candidates", "tie-at-cap", "duplicate-observer-group",
             "same-v4-ip-twice", "same-v6-56-twice", "shared-thin-waist-pooled", "sibling-transport-report",
             "report-replaced", "report-repeated", "uncountable-report-after-countable", "conn-not-at-listen-address",
             "report-on-conn-not-at-listen-address",
+            "sys-public-address-advertised", "sys-public-address-withdrawn", "sys-at-threshold-minus-1",
+            "sys-at-or-above-threshold", "sys-one-group-several-connections", "sys-lan-observer", "sys-tcp-outbound",
+            "sys-inbound-through-nat", "sys-simultaneous-connect", "sys-webtransport-dial", "sys-identify-sent-checked",
+            "sys-observer-shutdown",
             "late-identify-on-closed-conn", "close-right-after-identify", "identify-vs-close-race",
             "race-at-threshold-minus-1", "nat-type-tick",
             "uncountable-loopback", "uncountable-nat64", "uncountable-relayed", "uncountable-inconsistent-transport",
             "uncountable-inconsistent-ipversion", "uncountable-nil"],
-    real=["p2p/host/observedaddrs.Manager via NewManager/Start/Close (event handler, worker, NAT-type ticker on the bubble clock; "
+    real=["system stratum: swarm, TCP/QUIC/WebTransport transports, identify, basic host and its address manager "
+          "(p2p/host/basic/addrs_manager.go), observedaddrs.Manager, quic-go, yamux, multistream — all instrumented",
+          "p2p/host/observedaddrs.Manager via NewManager/Start/Close (event handler, worker, NAT-type ticker on the bubble clock; "
           "instrumented: sync->simsync, go->simrt.Go, channel ops, select, map ranges)",
           "p2p/host/eventbus (EvtPeerIdentificationCompleted subscription, stateful NAT emitter; instrumented likewise)"],
-    stubs=["network.Network: ListenAddresses/InterfaceListenAddresses (fixed per run), Notify/StopNotify registry; "
+    stubs=["(paced, burst, race strata only; the system stratum has none besides simnet's wire and NAT) network.Network: ListenAddresses/InterfaceListenAddresses (fixed per run), Notify/StopNotify registry; "
            "Disconnected is delivered synchronously (by the closing task) after the connection is marked closed; every "
            "callback is a scheduling point in the burst and race strata",
            "network.Conn: LocalMultiaddr/RemoteMultiaddr/IsClosed only; a 'plug' connection whose LocalMultiaddr blocks "
@@ -55,5 +72,9 @@ SPEC = dict(
     assume=["synctest fake clock and quiescence detection (Go 1.25.7)",
             "the overlay rewrite preserves behaviour (checked by ./check overlaytest C17)",
             "the swarm marks a connection closed before it delivers Disconnected (as swarm.Conn.doClose does)",
-            "listen addresses do not change during a run"],
+            "listen addresses do not change during a run",
+            "system stratum: lossless zero-latency wire, one NAT public IP with endpoint-independent port-preserving mapping "
+            "(simnet.SetNAT): at most one observed address per listen address, so cap and ordering are exercised only by the "
+            "Manager-level strata; withdrawal bound 11 s = 2 x addrChangeTickrInterval + 1 s",
+            "system stratum: simrand pins crypto/rand (QUIC connection ids, TLS randoms)"],
 )
